@@ -10,7 +10,9 @@ import ShVerif.Expect.C28Sites
   reviewed expectation.  Whole-interpreter panic freedom is explored by the harness's search leg
   only.
 
-  Statements that are false of the model (hence of the code: each counter-example is replayed on
+  Three statements that were false on the pinned tree (shift, getopts, arithmetic l-values) hold
+  since the fix: commits 2d6a9e4, 77cabce, fd86341 and are full theorems now.  Statements that are
+  still false of the model (hence of the code: each counter-example is replayed on
   the real interpreter on every run) are kept as `def …_statement : Prop`, with the `…_partial`
   theorem under the exact extra hypothesis and the refutation of the full statement.
 -/
@@ -18,50 +20,24 @@ namespace ShVerif.C28
 
 /-! ## shift -/
 
-/-- Full statement: `shift` never panics, for any positional parameters and any arguments. -/
-def shift_safe_statement : Prop := ∀ params args, shift params args ≠ .panic
-
-/-- `shift` does not panic unless its single argument is accepted by `strconv.Atoi` as a
-    negative number. -/
-theorem shift_partial (params args : List Bytes)
-    (h : ∀ n, shiftCount args = some n → 0 ≤ n) : shift params args ≠ .panic :=
-  shift_no_panic_of params args h
-
-/-- `set -- a b; shift -1` panics (`r.Params[-1:]`). -/
-theorem shift_counterexample : ¬ shift_safe_statement := by
-  intro h
-  exact h [[97], [98]] [[45, 49]] (by decide)
+/-- `shift` never panics, for any positional parameters and any arguments (a negative count is the
+    error "shift count out of range" since fix 2d6a9e4). -/
+theorem shift_safe (params args : List Bytes) : shift params args ≠ .panic :=
+  shift_no_panic params args
 
 /-! ## getopts -/
 
-/-- Full statement: for every sequence of calls — any option strings, any (changing) argument
-    vectors, any OPTIND values — `getopts.next` never indexes out of range. -/
-def getopts_safe_statement : Prop := ∀ calls, grun ⟨0, 0⟩ calls ≠ .panic
-
-/-- Safe whenever every call is *compatible* with the cursor it meets: the rune cursor is 0, or
-    OPTIND was changed (which resets the cursor), or the word under the argument cursor is the
-    same as in the previous call's argument vector. -/
-theorem getopts_partial (calls : List GCall) (h : GStable ⟨0, 0⟩ [] calls) :
-    grun ⟨0, 0⟩ calls ≠ .panic :=
-  grun_stable calls ⟨0, 0⟩ [] (Or.inl rfl) h
-
-/-- In particular: any number of calls on one fixed argument vector, with arbitrary option
-    strings and arbitrary OPTIND values in between. -/
-theorem getopts_fixed_args_safe (args : List (List Nat)) (calls : List GCall)
-    (h : ∀ c ∈ calls, c.args = args) : grun ⟨0, 0⟩ calls ≠ .panic :=
-  grun_fixed args calls ⟨0, 0⟩ (Or.inl rfl) h
-
-/-- One step keeps the invariant (used by both theorems; stated for reference). -/
-theorem getopts_next_safe (g : GState) (optstr : List Nat) (args : List (List Nat))
-    (h : GInv g args) : gnext g optstr args ≠ .panic := by
-  obtain ⟨g', o, hg, _⟩ := gnext_spec g optstr args h
+/-- `getopts.next` is total for every cursor, option string and argument vector (a stale rune
+    cursor is reset before use since fix 77cabce). -/
+theorem getopts_next_safe (g : GState) (optstr : List Nat) (args : List (List Nat)) :
+    gnext g optstr args ≠ .panic := by
+  obtain ⟨g', o, hg⟩ := gnext_total g optstr args
   rw [hg]; intro h'; cases h'
 
-/-- `getopts abc x -abc; getopts abc x -abc; getopts abc x -a`: stale `runeidx`. -/
-theorem getopts_counterexample : ¬ getopts_safe_statement := by
-  intro h
-  exact h [⟨1, [97, 98, 99], [[45, 97, 98, 99]]⟩, ⟨1, [97, 98, 99], [[45, 97, 98, 99]]⟩,
-           ⟨1, [97, 98, 99], [[45, 97]]⟩] (by decide)
+/-- For every sequence of calls — any option strings, any (changing) argument vectors, any OPTIND
+    values — `getopts.next` never indexes out of range. -/
+theorem getopts_safe (calls : List GCall) : grun ⟨0, 0⟩ calls ≠ .panic :=
+  grun_total calls ⟨0, 0⟩
 
 /-! ## flagParser and Params -/
 
@@ -142,27 +118,21 @@ theorem slice_elems_safe {α : Type} (elems : List α) (indexes : List Int) (off
 
 /-! ## arithmetic l-values -/
 
-/-- Full statement: every operand the parser accepts for `++ -- = op=` gives `expand.Arithm` a
-    non-empty variable name (so `Runner.lookupVar` does not panic) and passes its type assertion. -/
-def arith_name_safe_statement : Prop :=
-  ∀ x, (isArithName x = true ∨ isPrefixOperand x = true) → arithLvalue x ≠ .panic
-
-/-- Safe when the operand is a single non-empty literal (a plain name). -/
-theorem arith_name_partial (v : Bytes) (h : v ≠ []) : arithLvalue (.word [.lit v]) ≠ .panic := by
+/-- Whatever operand the parser hands to `++ -- = op=` (a name, `a[i]`, a postfix expression, …),
+    `expand.Arithm` neither fails a type assertion nor looks up an empty variable name: a
+    non-literal operand is the error "unsupported assignment target" (fix fd86341). -/
+theorem arith_name_safe (x : AExpr) : arithLvalue x ≠ .panic := by
   unfold arithLvalue
-  simp only [wordLit, litOf, List.all_nil, if_true, List.append_nil]
-  rw [if_neg h]
-  intro h'; cases h'
+  simp only
+  split <;> (intro h; cases h)
 
-/-- `a=(1 2); ((a[1]++))`: the parser accepts `a[1]`, `Word.Lit()` is "". -/
-theorem arith_name_counterexample : ¬ arith_name_safe_statement := by
-  intro h
-  exact h (.word [.nakedIndex [97]]) (Or.inl (by decide)) (by decide)
-
-/-- `$((++x++))`: the operand of the prefix operator is a `UnaryArithm`, the assertion fails. -/
-theorem arith_prefix_counterexample : ¬ arith_name_safe_statement := by
-  intro h
-  exact h .unary (Or.inr (by decide)) (by decide)
+/-- A name that is looked up is never empty. -/
+theorem arith_name_nonempty (x : AExpr) (n : Bytes) (h : arithLvalue x = .ok (some n)) : n ≠ [] := by
+  unfold arithLvalue at h
+  simp only at h
+  split at h
+  · cases h
+  · cases h; assumption
 
 /-! ## associative subscripts -/
 
@@ -193,20 +163,19 @@ theorem panic_sites_expected :
 example : shift [[97], [98], [99]] [[50]] = .ok 1 := by decide
 example : shift [[97]] [[45, 48]] = .ok 1 := by decide
 example : (gcall ⟨0, 0⟩ ⟨1, [97, 58], [[45, 97, 120]]⟩) = .ok (⟨1, 0⟩, ⟨97, [120], false⟩) := by decide
-example : GStable ⟨0, 0⟩ [] [⟨1, [97, 98], [[45, 97, 98]]⟩, ⟨1, [97, 98], [[45, 97, 98]]⟩] := by
-  refine ⟨Or.inl rfl, ?_⟩
-  intro g' o h
-  have : g' = ⟨0, 1⟩ := by
-    have h' : gcall ⟨0, 0⟩ ⟨1, [97, 98], [[45, 97, 98]]⟩ = .ok (⟨0, 1⟩, ⟨97, [], false⟩) := by decide
-    rw [h'] at h; cases h; rfl
-  subst this
-  exact ⟨Or.inr (Or.inr rfl), fun _ _ _ => trivial⟩
+-- the former counter-examples, now answered without a panic:
+example : shift [[97], [98]] [[45, 49]] = .outOfRange := by decide
+example : grun ⟨0, 0⟩ [⟨1, [97, 98, 99], [[45, 97, 98, 99]]⟩, ⟨1, [97, 98, 99], [[45, 97, 98, 99]]⟩,
+    ⟨1, [97, 98, 99], [[45, 97]]⟩] = .ok ⟨1, 0⟩ := by decide
+example : arithLvalue (.word [.nakedIndex [97]]) = .ok none := by decide
+example : arithLvalue .unary = .ok none := by decide
 example : fpObeys (FP.init [[45, 97, 98], [120]]) false [.more, .flag, .more, .flag, .more, .args] = true := by decide
 example : (fpRun (FP.init []) [.flag]).2 = true := by decide
 example : params true [false, false, false, false, false, false, false] [[45, 101], [45, 45], [120]]
     = .ok ⟨[false, true, false, false, false, false, false], some [[120]], 0⟩ := by decide
-example : sliceStr [97, 98, 99] (some (-1)) (some 5) = .ok [99] := by decide
+example : sliceStr [97, 98, 99] (some (-1)) (some 5) = .ok (some [99]) := by decide
+example : sliceStr [97, 98, 99] (some 2) (some (-5)) = .ok none := by decide
 example : sliceElems [0, 1, 2] [0, 5, 9] (some (-2)) none = .ok [2] := by decide
-example : arithLvalue (.word [.lit [97]]) = .ok [97] := by decide
+example : arithLvalue (.word [.lit [97]]) = .ok (some [97]) := by decide
 
 end ShVerif.C28
